@@ -105,7 +105,8 @@ PutStep(t, e) ==
   /\ Stage(t, IF lastAct'.res = "cont" THEN "run" ELSE "done")
 
 \* block notification.  test back end: the mock state is set first (one account), then removeOnBlockArrival
-\* scans every list; real back end: the state view changes inside the critical section.
+\* scans every list; real back end: the state view changes inside the critical section (e.full: the block is not
+\* a child of the pool's best block = every list scanned; else only the named accounts).
 BlockStep(t, e) ==
   /\ e.op = "block"
   /\ \/ /\ e.backend = "test" /\ th[t].stage = "start"
